@@ -217,6 +217,7 @@ func runC02(c *Ctx) {
 		c.Check(bad == "", "C02.R9", shortFn(ihl)+": enabledOptions &^ hostLevelMask == 0", ihl.Pos(), fmt.Sprintf("decision evaluated on %d option sets (none, every single option, every pair)", n), bad)
 	}
 	importRules(c, runC13, map[string]string{"C13.R2": "C02.R7"}, nil)
+	importRules(c, runC01, map[string]string{"C01.R2": "C02.R11", "C01.R3": "C02.R11", "C01.R6": "C02.R11"}, map[string]string{"C02.R11": "the network half of a DNS answer is the network engine's lookup: every table consulted, insert and probe side hash alike, tables decline only exact duplicates (shared with C01.R2/R3/R6)"})
 	importRules(c, runC03, map[string]string{"C03.R9": "C02.R10"}, map[string]string{"C02.R10": "the constants a ||domain^ rule is compiled with mean what the syntax documents: every sub-domain label a DNS name can have is covered (shared with C03.R9)"})
 	importRules(c, runC18, map[string]string{"C18.R1": "C02.R8", "C18.R2": "C02.R8", "C18.R3": "C02.R8", "C18.R4": "C02.R8", "C18.R5": "C02.R8", "C18.R10": "C02.R8"},
 		map[string]string{"C02.R8": "the host rules the engine answers with are the lines of the lists read as hosts-file syntax: tokenizer, name list, address acceptance, name matching (shared with C18)"})
@@ -507,6 +508,51 @@ func runC02(c *Ctx) {
 			}
 		}
 		c.Check(bad == "", "C02.R4", "MatchRequest: host rules split by address family", mr.Pos(), "V4 on the true edge of IP.Is4(), V6 on the false edge, complete scan", bad)
+	}
+
+	// ---------- R12: the request the engine is queried with carries the query's own client data ----------
+	{
+		c.Rule("C02.R12", "WIRE", "client address, client name, client tags and record type of the engine's request are the DNS request's own values", 4)
+		fn := mr
+		qIdx := 1
+		if poolGet != nil {
+			fn = poolGet
+			for i, p := range poolGet.Params {
+				if strings.HasSuffix(typeStr(p.Type()), "DNSRequest") {
+					qIdx = i
+				}
+			}
+		}
+		g := NewGate(c.P)
+		g.Inline = inlineOnly()
+		s := g.Eval(fn)
+		u := g.U
+		q := g.ParamExprs(fn)[qIdx]
+		for _, f := range []string{"ClientIP", "ClientName", "SortedClientTags", "DNSType"} {
+			bad := "the field is never set from the DNS request"
+			for _, ef := range s.Effects {
+				if ef.Kind != "store" {
+					continue
+				}
+				var v *E
+				switch {
+				case ef.Addr.Op == "faddr" && ef.Addr.Aux == f && typeStr(ef.Addr.Typ) != "" && strings.Contains(typeStr(ef.Addr.Args[0].Typ), "rules.Request"):
+					v = ef.Val
+				case strings.Contains(typeStr(ef.Addr.Typ), "rules.Request") && (ef.Val.Op == "struct" || ef.Val.Op == "zero"):
+					v = u.Field(ef.Val, f, nil)
+				}
+				if v == nil {
+					continue
+				}
+				if v.Op == "field" && v.Aux == f && v.Args[0] == q {
+					bad = ""
+				} else if v.Op != "zero" && !v.IsConst() && !v.IsNil() && !u.Mentions(v, func(x *E) bool { return x.Op == "zero" }) {
+					bad = "the engine is queried with " + clip(u.Show(v), 80) + " instead of the DNS request's own " + f + ": $client / $ctag / $dnstype rules are matched against a different value than the reference uses"
+					break
+				}
+			}
+			c.Check(bad == "", "C02.R12", "request field "+f+" is the query's own", fn.Pos(), "copied unchanged from the DNS request", bad)
+		}
 	}
 
 	// ---------- R6 ----------
